@@ -33,7 +33,7 @@ CONSTRUCTS = {
  # twelfth round (reported by a sub-agent on the unchanged tree, F-60): a unary minus whose operand begins with a path — written without the blank the two lex as ONE path token
  'neg_path': "- ./a", 'neg_path_rel': "- a/b", 'neg_path_abs': "- /a", 'neg_path_call': "- ./f x", 'neg_path_interp': "- ./a/${b}", 'neg_neg': "--a", 'neg_int': "-1",
  'empty_list': "[ ]", 'empty_set': "{ }", 'empty_rec_set': "rec { }", 'empty_list_call': "f [ ] { }",
- 'attrpath_quoted': "{\n  \"a\".b.\"c d\".e = 1;\n}", 'attrpath_interp': "{\n  ${x}.b.\"${y}\".c = 1;\n}",
+ 'attrpath_quoted': "{\n  \"a\".b.\"c d\".e = 1;\n}", 'attrpath_quoted_dots': "{\n  x.\"a . b\".c = 1;\n  k.\"p .q\" = 2;\n}", 'attrpath_interp': "{\n  ${x}.b.\"${y}\".c = 1;\n}",
  'dup_attrpath_sets': "{\n  a.b = {\n    x = 1;\n  };\n  a.b = {\n    y = 2;\n  };\n}", 'dup_attrpath_sets_apart': "{\n  s.n = {\n    e = true;\n  };\n  z = 1;\n  s.n = {\n    u = 2;\n  };\n}",
  'dup_attrpath_inherit': "{\n  a.b = {\n    inherit x;\n  };\n  a.b = {\n    inherit y;\n  };\n}", 'dup_attrpath_deep': "{\n  a.b.c = {\n    x = 1;\n  };\n  a.b.c = {\n    y = 2;\n  };\n  a.b.d = 3;\n}",
  'attrpath_deeper_mixed': "{\n  a.b.c = 1;\n  a.b = {\n    d = 2;\n  };\n}", 'empty_formals': "{ }: x", 'empty_formals_at': "{ }@args: x", 'formals_ellipsis_only': "{ ... }: x",
